@@ -356,7 +356,7 @@ func (x *run) use(ks []dentry, salt []byte, h *keyset.Handle, o []dkey) {
 		return
 	}
 	base := func(name string) vt.Ev {
-		return vt.Ev{"ev": name, "route": "factory", "ks": ks, "salt": vt.Hex(salt), "type": prim.Type, "ok": false, "panic": false}
+		return vt.Ev{"ev": name, "route": "factory", "ks": ks, "salt": vt.Hex(salt), "type": prim.Type, "ok": false, "constructed": false, "panic": false}
 	}
 	r := x.r
 	msg := vt.Bytes(r, []int{0, 1, 16, 33, 100}[r.Intn(5)])
@@ -372,6 +372,7 @@ func (x *run) use(ks []dentry, salt []byte, h *keyset.Handle, o []dkey) {
 			}
 			a, err = aead.New(h)
 			if err == nil {
+				e["constructed"] = true
 				ct, err = a.Encrypt(msg, ad)
 			}
 		})
@@ -389,6 +390,7 @@ func (x *run) use(ks []dentry, salt []byte, h *keyset.Handle, o []dkey) {
 				err = e1
 				return
 			}
+			e["constructed"] = true
 			sig, err = s.Sign(msg)
 			if err != nil {
 				return
@@ -424,6 +426,7 @@ func (x *run) use(ks []dentry, salt []byte, h *keyset.Handle, o []dkey) {
 				err = e1
 				return
 			}
+			e["constructed"] = true
 			tag, err = m.ComputeMAC(msg)
 			if err == nil {
 				verified = m.VerifyMAC(tag, msg) == nil
@@ -441,6 +444,7 @@ func (x *run) use(ks []dentry, salt []byte, h *keyset.Handle, o []dkey) {
 				err = e1
 				return
 			}
+			e["constructed"] = true
 			ct, err = d.EncryptDeterministically(msg, ad)
 			if err == nil {
 				pt2, err = d.DecryptDeterministically(ct, ad)
@@ -462,6 +466,7 @@ func (x *run) use(ks []dentry, salt []byte, h *keyset.Handle, o []dkey) {
 				err = e1
 				return
 			}
+			e["constructed"] = true
 			out, err = s.ComputePrimaryPRF(msg, n)
 		})
 		e["input"], e["n"], e["out"], e["ok"], e["panic"] = vt.Hex(msg), int(n), vt.Hex(out), err == nil && !p, p
@@ -476,6 +481,7 @@ func (x *run) use(ks []dentry, salt []byte, h *keyset.Handle, o []dkey) {
 				err = e1
 				return
 			}
+			e["constructed"] = true
 			var buf bytes.Buffer
 			wr, e2 := s.NewEncryptingWriter(&buf, ad)
 			if e2 != nil {
